@@ -585,8 +585,53 @@ fn ring_at_scale(n: usize, stack_kb: usize) {
     }
 }
 
+#[cfg(feature = "stdrc")]
+fn hub_at_scale(_n: usize, _stack_kb: usize) {}
+
+#[cfg(not(feature = "stdrc"))]
+fn hub_at_scale(n: usize, stack_kb: usize) {
+    // one object adopts n-1 others, each of which adopts it back: the trace's work list gets long
+    static DESTROYED: AtomicUsize = AtomicUsize::new(0);
+    struct Hn {
+        out: RefCell<Vec<Rc<Hn>>>,
+    }
+    impl Drop for Hn {
+        fn drop(&mut self) {
+            DESTROYED.fetch_add(1, Ordering::Relaxed);
+        }
+    }
+    let t = std::thread::Builder::new().stack_size(stack_kb * 1024).spawn(move || {
+        let hub = Rc::new(Hn { out: RefCell::new(Vec::new()) });
+        let hub_w = Rc::downgrade(&hub);
+        let mut keep = Some(hub);
+        for _ in 1..n {
+            let h = hub_w.upgrade().unwrap();
+            let spoke = Rc::new(Hn { out: RefCell::new(Vec::new()) });
+            // spoke -> hub (the upgraded handle is moved into the spoke: no drop, no trace)
+            unsafe { Rc::adopt_unchecked(&spoke, &h) };
+            spoke.out.borrow_mut().push(h);
+            // hub -> spoke (moved as well)
+            let hr = keep.as_ref().unwrap();
+            unsafe { Rc::adopt_unchecked(hr, &spoke) };
+            hr.out.borrow_mut().push(spoke);
+        }
+        drop(hub_w);
+        let t0 = std::time::Instant::now();
+        drop(keep.take());
+        t0.elapsed().as_millis()
+    }).unwrap();
+    match t.join() {
+        Ok(ms) => println!("hub ok n={} destroyed={} ms={}", n, DESTROYED.load(Ordering::Relaxed), ms),
+        Err(_) => println!("hub panicked n={}", n),
+    }
+}
+
 fn main() {
     let args: Vec<String> = std::env::args().collect();
+    if args.len() >= 4 && args[1] == "--hub" {
+        hub_at_scale(args[2].parse().unwrap(), args[3].parse().unwrap());
+        return;
+    }
     if args.len() >= 4 && args[1] == "--ring" {
         ring_at_scale(args[2].parse().unwrap(), args[3].parse().unwrap());
         return;
